@@ -1687,7 +1687,9 @@ impl Node {
 
     /// Return the remaining time to live.
     pub fn ttl(&self) -> Duration {
-        self.valid_for - self.created_at.elapsed()
+        // A node built from records with TTL 0 (or whose validity has just
+        // run out) has no time left; it must not underflow.
+        self.valid_for.saturating_sub(self.created_at.elapsed())
     }
 }
 
